@@ -275,9 +275,15 @@ def run(ctx):
     terms = []; infos = []; failures = []
     stats = dict(static=0, dynamic=0, ops=0, trials=0, reloads=0, workers={}, max_combos=0)
     distinct = 0; seen = set()
-    for i in range(n + ndyn):
-        seed = ctx.rng.randint(0, 2 ** 40); dyn = i >= n
-        fam = "retry" if dyn and (i - n) % 2 == 1 else None
+    import glob, json
+    corpus = [json.load(open(f))["case"] for f in sorted(glob.glob("/verif/corpus/C09/*.json"))]
+    stats["corpus_cases"] = len(corpus)
+    for i in range(-len(corpus), n + ndyn):
+        if i < 0:
+            c = corpus[i + len(corpus)]; seed, dyn, fam = c["seed"], c["dynamic"], c.get("family")
+        else:
+            seed = ctx.rng.randint(0, 2 ** 40); dyn = i >= n
+            fam = "retry" if dyn and (i - n) % 2 == 1 else None
         cfg, ops, obs, viol, info = run_case(seed, dynamic=dyn, family=fam)
         stats["dynamic" if dyn else "static"] += 1; stats["ops"] += len(ops); stats["trials"] += info["ntrials"]
         stats["reloads"] += sum(1 for o in ops if o[0] == "reload"); stats["workers"][info["W"]] = stats["workers"].get(info["W"], 0) + 1
